@@ -70,6 +70,15 @@ func (fc *FnCtx) evalTargets(x ast.Expr, env *Env) []WTarget {
 		if x.Name == "any" {
 			return []WTarget{{Any: true}}
 		}
+		if x.Name == "heap" {
+			// every heap region, but no ghost variable (what unknown library code can change)
+			var ghosts []string
+			for g := range fc.eng.cs.Ghosts {
+				ghosts = append(ghosts, g)
+			}
+			sort.Strings(ghosts)
+			return []WTarget{{Any: true, Except: ghosts}}
+		}
 		if _, ok := fc.eng.cs.Ghosts[x.Name]; ok {
 			return []WTarget{{Ghost: x.Name}}
 		}
@@ -576,6 +585,23 @@ func (fc *FnCtx) resolveCallee(cc *ssa.CallCommon, st *State) calleeInfo {
 			ci.name = pk.Pkg.Name() + "." + ci.name
 		}
 		ci.con = fc.eng.cs.Funcs["fnfield:"+ci.name]
+		if ci.con == nil {
+			// the parameter may have been renamed: try the name it had on the pinned tree
+			for i, q := range p.Parent().Params {
+				if q != p {
+					continue
+				}
+				if old := fc.eng.recordedParamName(p.Parent(), i); old != "" {
+					n := localName(p.Parent()) + "." + old
+					if pk := p.Parent().Pkg; pk != nil {
+						n = pk.Pkg.Name() + "." + n
+					}
+					if c := fc.eng.cs.Funcs["fnfield:"+n]; c != nil {
+						ci.name, ci.con = n, c
+					}
+				}
+			}
+		}
 		if ci.con != nil {
 			return ci
 		}
@@ -601,6 +627,7 @@ func (fc *FnCtx) call(in ssa.Instruction, cc *ssa.CallCommon, st *State) {
 	if v, ok := in.(ssa.Value); ok {
 		fc.vals[v] = r
 	}
+	fc.monitorAcquire(cc, st)
 }
 
 // calleeEnv binds the callee's parameter names to the actual arguments.
